@@ -5,7 +5,7 @@
    (state after an arbitrary label list — any interleaving of any number of clients — from any
    well-formed store). The ghost log is newest first. *)
 From KB Require Import Model.RevSys Model.KeySys Model.C01Cases Model.C02Cases.
-From KB Require Import Proofs.RevSys Proofs.KeySys Proofs.KeySysLog Proofs.KeySysChain Proofs.KeySysProps Proofs.C02Cases.
+From KB Require Import Proofs.RevSys Proofs.KeySys Proofs.KeySysLog Proofs.KeySysChain Proofs.KeySysProps Proofs.C02Cases Proofs.SchedCases.
 Local Open Scope N_scope.
 
 (* RevSys: no two allocations ever return the same revision, whatever the threads and the sequencer do *)
@@ -85,9 +85,14 @@ Theorem C02_read_oracle_f1_signature : forall c, read_oracle c = Some 1 ->
 Proof. exact read_oracle_f1_signature. Qed.
 Print Assumptions C02_read_oracle_f1_signature.
 
-(* full statement of the oracle lemma for schedule cases — not proved (see props/C02.json "gaps") *)
+(* the oracle lemma for schedule cases. Full statement (not proved, see "gaps"): *)
 Definition C02_sched_oracle_sound_full_statement : Prop :=
   forall c, sched_valid c -> sched_check c = true -> rev_ok c = true.
+(* proved clause: header >= kv revision inside every single response of every request record *)
+Theorem C02_sched_oracle_header_sound_partial : forall c, sched_valid c -> sched_check c = true ->
+  forallb (fun r => header_ok (rr_resp r)) (case_records c) = true.
+Proof. exact sched_headers_sound. Qed.
+Print Assumptions C02_sched_oracle_header_sound_partial.
 
 (* ----- non-vacuity ----- *)
 Example C02_ex_reach : reach true 10 ex_store ex_state.
